@@ -28,11 +28,12 @@ IPS = [0, 1, 2, 7, 12, 123, 99999]
 DIGITS = list(range(-3, 7))
 MODES = {'ROUND': decimal.ROUND_HALF_UP, 'ROUNDUP': decimal.ROUND_UP, 'ROUNDDOWN': decimal.ROUND_DOWN}
 _CTX15 = decimal.Context(prec=15)
+_CTXBIG = decimal.Context(prec=400)
 
 
 def expected_round(fn, text, n):
     d = Decimal(text)
-    q = d.quantize(Decimal(1).scaleb(-n), rounding=MODES[fn])
+    q = d.quantize(Decimal(1).scaleb(-n), rounding=MODES[fn], context=_CTXBIG)
     return float(q), (q != d)
 
 
@@ -57,6 +58,8 @@ def plan(tier, seed):
         for ip in IPS:
             shards.append({'kind': 'grid', 'sign': sign, 'ip': ip})
     shards.append({'kind': 'placed', 'n': 3000 if tier == 'quick' else 60000})
+    for part in range(4):
+        shards.append({'kind': 'scales', 'part': part, 'parts': 4})
     return shards
 
 
@@ -176,7 +179,62 @@ def run_placed(shard, ctx):
     r.sample({'placed': [f'={m[1]}({m[2]},{m[3]})' for m in meta[:3]]})
 
 
+MANTISSAS = [1, 2, 5, 9, 15, 25, 45, 49, 50, 51, 99, 125, 149, 150, 151, 499, 500, 501, 999, 1234, 1235, 4445, 4999, 5000, 5001, 9995, 9999,
+             123456789, 999999999999999, 100000000000001, 555555555555555]
+
+
+def run_scales(shard, ctx):
+    """the same three functions far from the 4-decimal grid: mantissas at every decimal scale 10^-15 .. 10^11 (<= 15 significant
+    digits), digit counts -12..16 - numbers whose repr / '.15g' text switches to exponent notation are in here"""
+    r = ctx.r
+    book = pipeline.Book(GRID_SPEC, ctx.workdir)
+    if book.cls is None:
+        r.violation('translate', {'spec': 'GRID_SPEC'}, book.whole.brief(), 'a loadable class')
+        return
+    mon = _monitor(r)
+    mon.install(book.cls)
+    nt = 0
+    cases = []
+    if 'text' in shard:
+        cases = [(shard['text'], shard['digits'])]
+    else:
+        k_all = list(range(-11, 16))
+        for mi, m in enumerate(MANTISSAS):
+            for k in k_all:
+                if len(str(m)) + max(0, -k) > 15 and k < 0:
+                    continue
+                if (mi + k) % shard['parts'] != shard['part']:
+                    continue
+                d = Decimal(m).scaleb(-k)
+                text = format(d, 'f')
+                if len(text.replace('.', '').lstrip('0')) > 15:
+                    continue
+                lo, hi = -k - 4, -k + 6
+                ns = sorted(set(range(max(-12, k - len(str(m)) - 2), min(17, k + 3))) | {0, 1, 2, 5})
+                if ctx.tier == 'quick':
+                    ns = ns[::2]
+                for n in ns:
+                    for sign in ('', '-'):
+                        cases.append((sign + text, n))
+    for text, n in cases:
+        x = float(text)
+        ov = [(0, 'A1', x), (0, 'B1', n)]
+        for fn, cell in FCELL.items():
+            if 'fn' in shard and shard['fn'] != fn:
+                continue
+            out = book.value(0, cell, ov)
+            changed = _check(r, fn, text, n, out, 'scales', mon)
+            if changed or is_tie(text, n):
+                nt += 1
+        r.seen('repr_forms', 'exponent' if 'e' in repr(x) else 'plain')
+    r.nontrivial_disjoint += nt
+    r.sample({'scales': [c for c in cases[:6]]})
+
+
 def run_shard(shard, ctx):
+    if 'replay' in shard and shard['replay'].get('how') == 'scales':
+        c = shard['replay']
+        return run_scales({'text': c['text'], 'digits': c['digits'], 'fn': c['fn']}, ctx)
     if 'replay' in shard:
         c = shard['replay']
         text = c['text']
@@ -190,6 +248,8 @@ def run_shard(shard, ctx):
         return
     if shard['kind'] == 'grid':
         run_grid(shard, ctx)
+    elif shard['kind'] == 'scales':
+        run_scales(shard, ctx)
     else:
         run_placed(shard, ctx)
 
